@@ -462,11 +462,62 @@ def w6(prog, ctx):
     ctx.floor("W6", "merge_counts calls that report unaligned reads", n, 2)
 
 
+def w7(prog, ctx):
+    """A record typed ambiguous is weighted 1/k with k = the number of features OF THAT RECORD (add_read_info).  Wherever a record's
+    type is set to an ambiguous member, the k that justifies it must therefore be the record's own feature count - not the size of a
+    set accumulated over several records."""
+    MR = "src/multimap_resolver.py"
+    n = 0
+    for m, q, f in prog.all_functions():
+        if m.rel != MR:
+            continue
+        single = {}
+        for a in walk_no_nested(f):
+            if isinstance(a, ast.Assign) and len(a.targets) == 1 and isinstance(a.targets[0], ast.Name):
+                single.setdefault(a.targets[0].id, []).append(a.value)
+        # locals that can hold an ambiguous member
+        amb_locals = {k for k, vs in single.items() if any("ambiguous" in src(v) and "ReadAssignmentType" in src(v) for v in vs)}
+        # sets accumulated inside a loop from attributes of the loop's records
+        accumulated = {}
+        for c in walk_no_nested(f):
+            if isinstance(c, ast.Call) and isinstance(c.func, ast.Attribute) and c.func.attr in ("update", "add") and isinstance(c.func.value, ast.Name) \
+                    and flow.enclosing_loops(c):
+                accumulated.setdefault(c.func.value.id, c)
+        for st in walk_no_nested(f):
+            if not (isinstance(st, ast.Assign) and any(isinstance(t, ast.Attribute) and t.attr in ("assignment_type", "gene_assignment_type") for t in st.targets)):
+                continue
+            v = st.value
+            if not (("ambiguous" in src(v) and "ReadAssignmentType" in src(v)) or (isinstance(v, ast.Name) and v.id in amb_locals)):
+                continue
+            n += 1
+            agg = None
+            for g in flow.guards_of(st, stop=f):
+                for name in [x.id for x in ast.walk(g.test) if isinstance(x, ast.Name)]:
+                    for dv in single.get(name, []):
+                        for y in ast.walk(dv):
+                            if isinstance(y, ast.Name) and y.id in accumulated:
+                                agg = agg or (name, src(dv), y.id, accumulated[y.id])
+            tgt = next(t for t in st.targets if isinstance(t, ast.Attribute))
+            if agg:
+                ctx.fail("W7", st, q, "%s = <ambiguous>  # under %s" % (src(tgt), agg[0]),
+                         "a record's %s is set to an ambiguous type because %s = %s, where %s is accumulated over SEVERAL records of the read "
+                         "(%s); AssignedFeatureCounter.add_read_info weights every record by 1 / (number of features of that record) - for a read "
+                         "tied between two loci each record has one feature, is weighted 1.0, and the read contributes 2.0 to the table, under "
+                         "every quantification strategy" % (tgt.attr, agg[0], agg[1], agg[2], src(agg[3])[:50]))
+            else:
+                ctx.ok("W7", "%s:%d" % (MR, st.lineno), "%s: ambiguous type justified by the record's own features" % q)
+    ctx.floor("W7", "sites typing a record ambiguous in the resolver", n, 2)
+
+
 def run(prog, ctx):
     ctx.rule("W5", "every create_gene_counter / create_transcript_counter call passes args.gene_quantification / "
                    "args.transcript_quantification respectively and an output path of the same level; the factories pass the strategy "
                    "to ReadWeightCounter and use their own level's extractor")
     w_levels(prog, ctx)
+    ctx.rule("W7", "agreement between who types a record ambiguous and who weights it: the counter divides by the record's own feature count, so a "
+                   "site that sets <record>.(gene_)assignment_type to an ambiguous member must not be controlled by the size of a set "
+                   "accumulated over several records")
+    w7(prog, ctx)
     ctx.rule("W6", "the unaligned-read number passed to merge_counts (the __not_aligned line) is read from a DatasetProcessor location that "
                    "is written unconditionally, before any use, in every iteration of the per-experiment loop (self-calls inlined)")
     w6(prog, ctx)
